@@ -31,10 +31,15 @@ for d in sorted(glob.glob(SRC+'/*/*/patch.diff')):
     tag=os.environ.get('BENIGN_TAG','')
     out='/verif/benign_patches/%s%s/%s'%(area,tag,n)
     meta={'id':area+tag+'/'+n,'alarms':alarms,'accepted':not alarms}
-    if not alarms and os.path.realpath(d)!=os.path.realpath(out):
+    try:
+        prev=json.load(open(out+'/meta.json'))
+        if 'rebased' in prev: meta['rebased']=prev['rebased']
+    except Exception: pass
+    if os.path.exists(d+'/REBASED'): meta['rebased']=open(d+'/REBASED').read().strip()
+    if not alarms:
         os.makedirs(out,exist_ok=True)
-        shutil.copy(d+'/patch.diff',out+'/patch.diff')
-        if os.path.exists(d+'/NOTES.md'): shutil.copy(d+'/NOTES.md',out+'/NOTES.md')
+        if os.path.realpath(d)!=os.path.realpath(out): shutil.copy(d+'/patch.diff',out+'/patch.diff')
+        if os.path.exists(d+'/NOTES.md') and os.path.realpath(d)!=os.path.realpath(out): shutil.copy(d+'/NOTES.md',out+'/NOTES.md')
         json.dump(meta,open(out+'/meta.json','w'),indent=1)
     print(area,n,'silent' if not alarms else 'ALARM %d'%len(alarms))
     for a in alarms[:6]: print('    ',a)
